@@ -851,6 +851,12 @@ func (e *Enc) applyContract(fc *FuncContract, key, site string, sig *types.Signa
 	}
 	for _, cl := range ensures {
 		penv.calleeGhosts = fc.Ghosts
+		penv.calleeLabels = nil
+		for _, a := range fc.Ats {
+			if a.Kind == "label" {
+				penv.calleeLabels = append(penv.calleeLabels, a.Target)
+			}
+		}
 		t, ok := penv.tryEvalBool(cl.Expr, crossMode)
 		if !ok && crossMode {
 			e.used["postcondition of "+fc.Key+" could not be evaluated in bit-vector mode and is not used: "+cl.Src] = true
